@@ -169,10 +169,12 @@ def generate(L):
     v = '"' + '" || t == "'.join(_ascii(t) for t in ver_toks) + '"'
     n_h = flatfn.count("t == " + h)
     n_v = flatfn.count("t == " + v)
-    lits_h = sum(flatfn.count('t == "%s"' % _ascii(t)) for t in help_toks)
-    lits_v = sum(flatfn.count('t == "%s"' % _ascii(t)) for t in ver_toks)
-    if lits_h != n_h * len(help_toks) or lits_v != n_v * len(ver_toks):
-        raise L.GenError("rewrite blocks: a help/version comparison uses a different token set than pre_has_help/pre_has_version")
+    from collections import Counter
+    lits = Counter(re.findall(r't == "((?:[^"\\\\]|\\\\.)*)"', flatfn))
+    want_lits = {_ascii(t) for t in help_toks} | {_ascii(t) for t in ver_toks}
+    if set(lits) != want_lits or any(lits[x] != n_h for x in map(_ascii, help_toks)) \
+            or any(lits[x] != n_v for x in map(_ascii, ver_toks)):
+        raise L.GenError(f"rewrite blocks: a help/version comparison uses a different token set: {dict(lits)}")
     if n_h != 5 or n_v != 5:
         raise L.GenError(f"rewrite blocks: help/version comparisons changed (help x{n_h}, version x{n_v})")
     ish = re.search(r"let is_help = command\.as_deref\(\) == Some\(" + L.STR_LIT + r"\) \|\| command\.as_deref\(\) == Some\("
